@@ -71,6 +71,9 @@ def runtime_check(contract, func, args, L, stats=None, skip_frame=()):
     if not all(p for _, p in pre):
         if stats is not None:
             stats['vacuous'] = stats.get('vacuous', 0) + 1
+            why = '%s pre:%s' % (contract.key.split('::')[-1], [n for n, p in pre if not p][0])
+            stats.setdefault('vacuous_by', {})
+            stats['vacuous_by'][why] = stats['vacuous_by'].get(why, 0) + 1
         return 'vacuous', None
     allowed = contract.raises(L, A, G)
     try:
@@ -101,18 +104,24 @@ def runtime_check(contract, func, args, L, stats=None, skip_frame=()):
 
 
 def _same(a, b):
+    """value equality for the kinds of arguments whose frame we track; other objects are not compared"""
     try:
         import numpy as np
         if isinstance(a, np.ndarray) or isinstance(b, np.ndarray):
             a, b = np.asarray(a), np.asarray(b)
+            if a.dtype == object or b.dtype == object:
+                return a.shape == b.shape and all(_same(x, y) for x, y in zip(a.ravel(), b.ravel()))
             return a.shape == b.shape and a.dtype == b.dtype and bool(np.array_equal(a, b, equal_nan=a.dtype.kind == 'f'))
         if isinstance(a, (list, tuple)):
             return type(a) == type(b) and len(a) == len(b) and all(_same(x, y) for x, y in zip(a, b))
-        if callable(a):
-            return True
-        r = (a == b)
-        if isinstance(r, np.ndarray):
-            return bool(r.all())
-        return bool(r)
+        if isinstance(a, dict):
+            return isinstance(b, dict) and a.keys() == b.keys() and all(_same(a[k], b[k]) for k in a)
+        if isinstance(a, (int, float, bool, str, type(None), np.generic)):
+            return type(a) == type(b) and (a == b or (a != a and b != b))
+        if hasattr(a, '_data') and hasattr(a, 'lengths'):          # RaggedArray
+            return _same(np.asarray(a._data), np.asarray(b._data)) and _same(np.asarray(a.lengths), np.asarray(b.lengths))
+        if hasattr(a, 'toarray') and hasattr(b, 'toarray'):        # scipy sparse
+            return type(a) == type(b) and a.shape == b.shape and bool(np.array_equal(a.toarray(), b.toarray()))
+        return True
     except Exception:
         return True
